@@ -31,6 +31,12 @@ async def one_tunnel(out, chain, bank, seed, uid, lk, ck, shape, live):
         conn, ok, detail = await chain.open_tunnel(lk, ck, shape["host"], early=early, bank=2 if origin_first else 1, split=shape.get("split"),
                                                    rcvbuf=65536 if shape.get("backpressure") == "s2c" else None)
     except Exception as e:
+        if ck == "s4" and shape["host"] == "ipv6" and isinstance(e, (ConnectionError, asyncio.IncompleteReadError)):
+            # the legitimate refusal (IPv6 over SOCKS4) of a request that had payload glued to it: the proxy closes with unread
+            # data in its receive buffer, the kernel turns that into a reset and the refusal reply may be lost with it
+            out.count("refused_ipv6_over_socks4")
+            live.pop(uid, None)
+            return
         out.violation("tunnel setup failed: %s via %s [%s]" % (lk, ck, type(e).__name__),
                       {"lk": lk, "ck": ck, "shape": res["shape"], "error": repr(e)[:200], "A.stderr": chain.A.stderr_tail(600)})
         live.pop(uid, None)
